@@ -16,7 +16,7 @@ def run_units(ctx, proofs_ok, only=None):
         names = [n for n in names if n.split("_", 1)[1] in only]
     else:
         from vt.common import disabled_units
-        names = [n for n in names if n.split("_", 1)[1] not in disabled_units()]
+        names = [n for n in names if n.split("_", 1)[1] not in disabled_units(ctx.pid)]
     for n in names:
         unit = n.split("_", 1)[1]
         t0 = time.time()
